@@ -17,14 +17,15 @@ Definition mk_range_line (base size : Z) : option range :=
    dropped before MinidumpModule::read; the rest go to from_modules in stream order *)
 Definition module_read_keep (base size : Z) : bool := negb ((size =? 0) || (size >? U64MAX - base)).
 
-Record c08_out := { o_panic : bool; o_table : list (Z * Z * Z); o_gets : list (list Z) }.
+(* o_err: the reader returned Err for the whole stream (kind 9 only) *)
+Record c08_out := { o_panic : bool; o_err : bool; o_table : list (Z * Z * Z); o_gets : list (list Z) }.
 
 Definition pack {V} (tag : V -> Z) (qs : list Z) (r : outcome (list (range * V))) : c08_out :=
   match r with
-  | Ret t => {| o_panic := false;
+  | Ret t => {| o_panic := false; o_err := false;
                 o_table := map (fun e => (fst (fst e), snd (fst e), tag (snd e))) t;
                 o_gets := map (fun x => match rm_get t x with Some v => [tag v] | None => [] end) qs |}
-  | _ => {| o_panic := true; o_table := []; o_gets := [] |}
+  | _ => {| o_panic := true; o_err := false; o_table := []; o_gets := [] |}
   end.
 
 Definition third (t : Z * Z * Z) : Z := snd t.
@@ -36,16 +37,18 @@ Definition third (t : Z * Z * Z) : Z := snd t.
    kind 4: symbol-file records (FUNC, STACK CFI INIT): value carries (addr,size,tag)
    kind 5: line records of one FUNC: value carries (addr,size,tag), zero sizes filtered
    kind 8: MinidumpModuleList::read (the read-time filter, then the index-valued builder)
+   kind 9: MinidumpUnloadedModuleList::read: one raw module with a zero size or reaching past the address space makes
+           the whole read return Err (o_err); otherwise the unloaded table over all entries (kind 3)
    kind 7: STACK WIN records of one type (frame data or FPO), file order: insert_win_stack_info for each, then the
            parser-local builder; a table entry / lookup answer is the record as stored: [tag; address; size] *)
 Definition run_win (p : profile) (ents : list (Z * Z * Z)) (qs : list Z) : c08_out :=
   match win_table p (map (fun e => let '(b, s, v) := e in mkW b s v) ents) with
-  | Ret t => {| o_panic := false;
+  | Ret t => {| o_panic := false; o_err := false;
                 o_table := map (fun e => (fst (fst e), snd (fst e), wt (snd e))) t;
                 o_gets := map (fun x => match rm_get t x with
                                         | Some w => [wt w; wa w; ws w]
                                         | None => [] end) qs |}
-  | _ => {| o_panic := true; o_table := []; o_gets := [] |}
+  | _ => {| o_panic := true; o_err := false; o_table := []; o_gets := [] |}
   end.
 
 Definition run_case (kind : Z) (ents : list (Z * Z * Z)) (qs : list Z) : c08_out :=
@@ -57,9 +60,16 @@ Definition run_case (kind : Z) (ents : list (Z * Z * Z)) (qs : list Z) : c08_out
     pack (fun v => v) qs (build_indexed (map (fun e => let '(b, s, _) := e in mk_range_maps b s) ents))
   else if kind =? 3 then
     let t := unloaded_build (map (fun e => let '(b, s, _) := e in mk_range b s) ents) in
-    {| o_panic := false;
+    {| o_panic := false; o_err := false;
        o_table := map (fun e => (fst (fst e), snd (fst e), snd e)) t;
        o_gets := map (fun x => unloaded_at t x) qs |}
+  else if kind =? 9 then
+    if forallb (fun e => let '(b, s, _) := e in module_read_keep b s) ents then
+      let t := unloaded_build (map (fun e => let '(b, s, _) := e in mk_range b s) ents) in
+      {| o_panic := false; o_err := false;
+         o_table := map (fun e => (fst (fst e), snd (fst e), snd e)) t;
+         o_gets := map (fun x => unloaded_at t x) qs |}
+    else {| o_panic := false; o_err := true; o_table := []; o_gets := [] |}
   else if kind =? 4 then
     pack third qs (build_p triple_eqb
       (drop_none (map (fun e => let '(b, s, v) := e in (mk_range b s, e)) ents)))
